@@ -172,6 +172,12 @@ func (u *Universe) checkG1() []*Oblig {
 										return true
 									}
 								}
+							case *ast.ReturnStmt:
+								// an unexported helper that selects a table (return pkgTable, true): the alias is followed by the
+								// executor in the callers (helpers without contract are inlined), writes through it are reported there
+								if !fd.Name.IsExported() {
+									return true
+								}
 							case *ast.AssignStmt:
 								// m = pkgTable (local alias of a table, as in PrivilegesRequired.Value): reads only are checked on the alias by the executor
 								for _, r := range par.Rhs {
